@@ -119,6 +119,17 @@ def run(ctx):
                 for ci, ch in enumerate(chunkings):
                     # if the corrupted frame itself is still delivered or kills the session, what follows differs: judged below
                     live_in.append((rid + ".c%d" % ci, ch, [3, 4]))
+    # marker-free junk in front of the frame in the same buffer (the frame's marker is not at offset 0), the frame cut
+    # at every field boundary / a few bytes short / complete, with and without traffic behind it
+    for ji, junk in enumerate([b"\x00junk\x01", b"x" * 23, b"10=000\x01" * 3, b"\r\n"]):
+        f = peer2
+        cuts = [i + 1 for i, ch in enumerate(f) if ch == 1] + [len(f) - 1, len(f) - 3, len(f) - 8]
+        for k in sorted(set(cuts)):
+            dec_in.append(("jp%d.cut%d" % (ji, k), junk + f[:k], None, None, ()))
+            if k == len(f):
+                dec_in.append(("jp%d.whole+follow" % ji, junk + f + follow, f, None, tuple([f] + list(tail))))
+        for name, m in grammar_mutants(f)[:40]:
+            dec_in.append(("jp%d.%s" % (ji, name), junk + m + follow, None, None, tuple(tail)))
     ctx.log("decoding %d buffers repeatedly with the real Codec.decode(silent=True); %d live-reader runs" % (len(dec_in), len(live_in)))
     drecs = pmap(_dec, dec_in)
     lrecs = pmap(_live, live_in)
